@@ -261,6 +261,36 @@ def callback_threading(ctx, rule="C17.R8"):
         raise AnalysisError(f"{rule}: fewer than 3 contribution step_callback implementations found")
 
 
+def stored_time_is_solved_time(ctx, rule="C17.R13"):
+    """R_x solves g(self.tn + self.dt, q_{n+1}) = 0.  If solve() labels the step with tn + min(self.dt, t1 - tn) the last step of a run whose
+    t1 is not a multiple of dt is solved at tn + dt and stored under t1: for a rheonomic constraint g(t1, q_N) = O(dt)."""
+    rep = ctx.rep
+    rel = "cardillo/solver/backward_euler.py"
+    cls = ctx.repo.get(rel, "BackwardEuler")
+    solve = next((f for f in cls.body if isinstance(f, ast.FunctionDef) and f.name == "solve"), None)
+    rx = next((f for f in cls.body if isinstance(f, ast.FunctionDef) and f.name == "R_x"), None)
+    C = f"{rel}:BackwardEuler.solve"
+    if solve is None or rx is None:
+        rep.ok(rule, C, "solve / R_x not found (no verdict)", verdict="unknown", trivial=True)
+        return
+    rx_steps = {norm_src(w) for w in ast.walk(rx) if isinstance(w, ast.Attribute) and w.attr == "dt"} | \
+               {norm_src(v) for w in ast.walk(rx) if isinstance(w, ast.Assign) and len(w.targets) == 1 and norm_src(w.targets[0]) == "dt" for v in [w.value]}
+    binds = {w.targets[0].id: w.value for w in ast.walk(solve) if isinstance(w, ast.Assign) and len(w.targets) == 1 and isinstance(w.targets[0], ast.Name)}
+    t = binds.get("tn1")
+    if t is None or not (isinstance(t, ast.BinOp) and isinstance(t.op, ast.Add)):
+        rep.ok(rule, C, "no `tn1 = tn + step` in solve (no verdict)", verdict="unknown", trivial=True)
+        return
+    step = t.right
+    while isinstance(step, ast.Name) and step.id in binds:
+        step = binds[step.id]
+    if norm_src(step) in rx_steps or norm_src(step) == "self.dt":
+        rep.ok(rule, C, f"`tn1 = {norm_src(t)}`: the step the equations use ({', '.join(sorted(rx_steps)) or 'self.dt'})")
+    else:
+        rep.bad(rule, C, t, f"the stored time `tn1 = {norm_src(t)}` uses the step `{norm_src(step)[:50]}` while R_x solves with {', '.join(sorted(rx_steps)) or 'self.dt'}: whenever the two differ (a last "
+                "step shortened to end at t1) the state is solved at one time and stored under another, and a time-dependent constraint is violated by O(dt) at the stored time",
+                f"{rel}:{t.lineno}")
+
+
 def initial_projection_dominates(ctx, rule="C17.R12"):
     """Every fixed-step solver stores system.q0 as its first step.  system.q0 is what consistent_initial_conditions returns; it is unit-length
     only if the projection ran on the path taken."""
@@ -341,6 +371,8 @@ def ivp_full_mass_matrix(ctx, rule="C17.R11"):
 
 def run(ctx):
     rep = ctx.rep
+    rep.rule("C17.R13", "BackwardEuler: the time a step is STORED under is the time its equations were SOLVED at: tn1 = self.tn + self.dt with the same self.dt that R_x / J_x / prox read (a locally shortened last step must also shorten the equations)", 1)
+    stored_time_is_solved_time(ctx)
     rep.rule("C17.R12", "the first stored step is a projected state on EVERY assembly path: in consistent_initial_conditions the call system.step_callback(t0, q0, u0) (quaternion normalisation) dominates every return, the early exits for 'no consistent initial conditions requested' / nu == 0 included", 1)
     initial_projection_dominates(ctx)
     rep.rule("C17.R11", "ScipyIVP: the system mass matrix enters the definition of u_dot and of the multipliers whole (linear solve, block, product), never through its diagonal or elements", 2)
@@ -667,4 +699,9 @@ NEUTRAL += [
 MUTANTS += [
     dict(id="c17-r12-seed", canary=True, what="[seeded by sub-agent] consistent_initial_conditions: the projection of the initial state moved below the early exit for assemblies without consistent initial conditions", file='cardillo/solver/_base.py',
          old='    # normalize quaternions etc.\n    q0, u0 = system.step_callback(t0, q0, u0)\n\n    q_dot0 = system.q_dot(t0, q0, u0)\n\n    if (\n        not options.compute_consistent_initial_conditions or system.nu == 0\n    ):  # second case can happen during debugging, when only frames are added to the system\n        return (\n            t0,\n            q0,\n            u0,\n            q_dot0,\n            np.zeros(system.nu),\n            np.zeros(system.nla_g),\n            np.zeros(system.nla_gamma),\n            np.zeros(system.nla_c),\n            np.zeros(system.nla_N),\n            np.zeros(system.nla_F),\n        )\n\n', new='    q_dot0 = system.q_dot(t0, q0, u0)\n\n    if (\n        not options.compute_consistent_initial_conditions or system.nu == 0\n    ):  # second case can happen during debugging, when only frames are added to the system\n        return (\n            t0,\n            q0,\n            u0,\n            q_dot0,\n            np.zeros(system.nu),\n            np.zeros(system.nla_g),\n            np.zeros(system.nla_gamma),\n            np.zeros(system.nla_c),\n            np.zeros(system.nla_N),\n            np.zeros(system.nla_F),\n        )\n\n    # normalize quaternions etc.\n    q0, u0 = system.step_callback(t0, q0, u0)\n    q_dot0 = system.q_dot(t0, q0, u0)\n\n', expect="C17.R12"),
+]
+
+MUTANTS += [
+    dict(id="c17-r13-seed", canary=True, what="[seeded by sub-agent] BackwardEuler.solve shortens the LABEL of the last step (dt = min(self.dt, t1 - tn)) while R_x keeps solving with self.dt", file='cardillo/solver/backward_euler.py',
+         old="            tn1 = self.tn + self.dt\n", new="            dt = min(self.dt, self.t1 - self.tn)\n            tn1 = self.tn + dt\n", expect="C17.R13"),
 ]
